@@ -15,6 +15,7 @@ From Coq Require Import List NArith.
 From Astisub Require Import Kit.Base Kit.Scan Model.Srt Model.Vtt Model.Ttx Proofs.SrtIOProofs Proofs.VttIOProofs Proofs.TtxTotal.
 From Astisub Require Import Model.Ssa Proofs.SsaIgnore.
 From Astisub Require Import Model.Stl Model.StlIO Proofs.StlBlocks Proofs.StlIOProofs.
+From Astisub Require Import Kit.Xml Model.Ttml Model.PlainTtml Proofs.TtmlBase Proofs.TtmlIO.
 Import ListNotations.
 
 Theorem C08_srt_reader_total : forall (ls : list (list N)) (scan_err : bool) (p : N), read_srt_lines ls scan_err <> Panic p.
@@ -54,6 +55,21 @@ Print Assumptions C08_stl_writer_total.
 Theorem C08_teletext_reader_total : forall page ds (p : N), ttx_feed page ds <> Panic p.
 Proof. exact ttx_feed_no_panic. Qed.
 
+(* TTML: the reader on ANY XML token tree (whatever encoding/xml delivers) and, at byte level, on any bytes through the
+   XML parser model; the writer on any document value, as a tree and as bytes with any indent option *)
+Theorem C08_ttml_reader_total : forall root (p : N), read_ttml root <> Panic p.
+Proof. exact read_ttml_total. Qed.
+Theorem C08_ttml_reader_total_bytes : forall data (p : N), read_ttml_bytes data <> Panic p.
+Proof. exact read_ttml_bytes_total. Qed.
+Theorem C08_ttml_writer_total : forall d (p : N), write_ttml d <> Panic p.
+Proof. exact write_ttml_total. Qed.
+Theorem C08_ttml_writer_total_bytes : forall ind d (p : N), write_ttml_bytes ind d <> Panic p.
+Proof. exact write_ttml_bytes_total. Qed.
+
+Print Assumptions C08_ttml_reader_total.
+Print Assumptions C08_ttml_reader_total_bytes.
+Print Assumptions C08_ttml_writer_total.
+Print Assumptions C08_ttml_writer_total_bytes.
 Print Assumptions C08_teletext_reader_total.
 Print Assumptions C08_srt_reader_total.
 Print Assumptions C08_srt_reader_total_bytes.
